@@ -114,6 +114,8 @@ type c28Rec struct {
 	Desc   kit.M  `json:"desc"`
 	Idx    int    `json:"idx"`
 	Stored bool   `json:"stored"` // get/head: the addressed object is in the local storage
+	Hist   int    `json:"hist"`   // 0: single request; 1 / 2: first / second step of a bearer-expiry history
+	Ridx   int    `json:"ridx"`   // index the realisation generator was seeded with
 }
 
 // ---------------------------------------------------------------- world
@@ -504,7 +506,24 @@ func xhdrs() []*protosession.XHeader {
 }
 
 // run builds the world of the case and executes the real pipeline.
+// c28Step is one executed request of a realised case.
+type c28Step struct {
+	in   c28In
+	out  c28Out
+	desc kit.M
+}
+
 func (w *c28World) run(r *rand.Rand, in c28In, stored bool) (c28Out, kit.M) {
+	st := w.runSteps(r, in, stored, false)
+	return st[0].out, st[0].desc
+}
+
+// runSteps realises the case and executes the request. With hist (the case carries a valid bearer token)
+// the node then goes through new-epoch events until the token's exp has passed - exactly what
+// cmd/neofs-node does on such an event: the epoch source moves and the token check caches are reset
+// through Service.ResetTokenCheckCache / ObjectSessionsCache.ResetCache - and the SAME request with the
+// SAME token bytes is executed again: its abstract input is the first one with bearer.valid = FALSE.
+func (w *c28World) runSteps(r *rand.Rand, in c28In, stored bool, hist bool) []c28Step {
 	c := &c28Case{in: in, desc: kit.M{}}
 	e := w.e
 	c.sender = newIdent()
@@ -629,7 +648,7 @@ func (w *c28World) run(r *rand.Rand, in c28In, stored bool) (c28Out, kit.M) {
 		st.ForVerb(verb)
 		st.SetIat(e.epoch)
 		st.SetNbf(e.epoch)
-		st.SetExp(e.epoch + 1)
+		st.SetExp(e.epoch + 10)
 		must(st.Sign(c.sender.signer(r.Intn(3))))
 		mh.SessionToken = st.ProtoMessage()
 		reqSigner = gw
@@ -659,158 +678,184 @@ func (w *c28World) run(r *rand.Rand, in c28In, stored bool) (c28Out, kit.M) {
 	addr := &refs.Address{ContainerId: c.cnr.ProtoMessage(), ObjectId: c.obj.ProtoMessage()}
 	var tokens common.RequestTokens
 	out := func(v string, stage string) (c28Out, kit.M) {
-		c.desc["stage"] = stage
-		c.desc["role"] = role
-		c.desc["effOp"] = c.effOp
-		c.desc["hdr"] = hc
-		return c28Out{V: v}, c.desc
+		d := kit.M{}
+		for k, x := range c.desc {
+			d[k] = x
+		}
+		d["stage"] = stage
+		d["role"] = role
+		d["effOp"] = c.effOp
+		d["hdr"] = hc
+		return c28Out{V: v}, d
 	}
 	w.reset()
 
-	// --- token verification, as Server._handleRequestMetaHeader does
-	verbV1, verbV2 := opVerbV1[in.Op], opVerbV2[in.Op]
-	if in.Op == "put" && in.Tomb {
-		verbV1, verbV2 = session.VerbObjectDelete, sessionv2.VerbObjectDelete
-	}
-	reqObj := c.obj
-	if in.Op == "search" {
-		reqObj = oid.ID{}
-	}
-	if mh.SessionTokenV2 != nil {
-		t, err := w.svc.VerifySessionTokenMessage(mh.SessionTokenV2, verbV2, c.cnr)
-		if err != nil {
-			panic(fmt.Sprintf("harness: valid V2 session token rejected: %v", err))
+	exec := func() (c28Out, kit.M) {
+		tokens = common.RequestTokens{}
+		var err error
+		// --- token verification, as Server._handleRequestMetaHeader does
+		verbV1, verbV2 := opVerbV1[in.Op], opVerbV2[in.Op]
+		if in.Op == "put" && in.Tomb {
+			verbV1, verbV2 = session.VerbObjectDelete, sessionv2.VerbObjectDelete
 		}
-		tokens.Session = &t
-	} else if mh.SessionToken != nil {
-		t, err := w.svc.VerifySessionV1TokenMessage(mh.SessionToken, verbV1, c.cnr, reqObj)
-		if err != nil {
-			panic(fmt.Sprintf("harness: valid V1 session token rejected: %v", err))
+		reqObj := c.obj
+		if in.Op == "search" {
+			reqObj = oid.ID{}
 		}
-		tokens.SessionV1 = &t
-	}
-	if mh.BearerToken != nil {
-		t, err := w.svc.VerifyBearerTokenMessage(mh.BearerToken)
-		if err != nil {
-			return out("deny", "bearer token verification: "+err.Error())
+		if mh.SessionTokenV2 != nil {
+			t, err := w.svc.VerifySessionTokenMessage(mh.SessionTokenV2, verbV2, c.cnr)
+			if err != nil {
+				panic(fmt.Sprintf("harness: valid V2 session token rejected: %v", err))
+			}
+			tokens.Session = &t
+		} else if mh.SessionToken != nil {
+			t, err := w.svc.VerifySessionV1TokenMessage(mh.SessionToken, verbV1, c.cnr, reqObj)
+			if err != nil {
+				panic(fmt.Sprintf("harness: valid V1 session token rejected: %v", err))
+			}
+			tokens.SessionV1 = &t
 		}
-		tokens.Bearer = &t
+		if mh.BearerToken != nil {
+			t, err := w.svc.VerifyBearerTokenMessage(mh.BearerToken)
+			if err != nil {
+				return out("deny", "bearer token verification: "+err.Error())
+			}
+			tokens.Bearer = &t
+		}
+
+		var info aclsvc.RequestInfo
+		var msg any
+		switch in.Op {
+		case "get":
+			req := &protoobject.GetRequest{Body: &protoobject.GetRequest_Body{Address: addr}, MetaHeader: mh}
+			if reqSigner != nil {
+				req.VerifyHeader, err = neofscrypto.SignRequestWithBuffer(reqSigner.signer(r.Intn(3)), req, nil)
+				must(err)
+			}
+			info, err = w.svc.GetRequestToInfo(ctx, req, c.cnr, tokens)
+			msg = req
+		case "head":
+			req := &protoobject.HeadRequest{Body: &protoobject.HeadRequest_Body{Address: addr}, MetaHeader: mh}
+			if reqSigner != nil {
+				req.VerifyHeader, err = neofscrypto.SignRequestWithBuffer(reqSigner.signer(r.Intn(3)), req, nil)
+				must(err)
+			}
+			info, err = w.svc.HeadRequestToInfo(ctx, req, c.cnr, tokens)
+			msg = req
+		case "delete":
+			req := &protoobject.DeleteRequest{Body: &protoobject.DeleteRequest_Body{Address: addr}, MetaHeader: mh}
+			if reqSigner != nil {
+				req.VerifyHeader, err = neofscrypto.SignRequestWithBuffer(reqSigner.signer(r.Intn(3)), req, nil)
+				must(err)
+			}
+			info, err = w.svc.DeleteRequestToInfo(ctx, req, c.cnr, tokens)
+			msg = req
+		case "range", "hash":
+			req := &protoobject.GetRangeRequest{Body: &protoobject.GetRangeRequest_Body{Address: addr, Range: &protoobject.Range{Length: 1}}, MetaHeader: mh}
+			if reqSigner != nil {
+				req.VerifyHeader, err = neofscrypto.SignRequestWithBuffer(reqSigner.signer(r.Intn(3)), req, nil)
+				must(err)
+			}
+			info, err = w.svc.RangeRequestToInfo(ctx, req, c.cnr, tokens)
+			if in.Op == "hash" && err == nil {
+				// GetRangeHash is no longer served by the object server; the checkers still know the
+				// operation, so it is driven directly: request info of a range request, operation replaced.
+				info.Operation = acl.OpObjectHash
+			}
+			msg = req
+		case "search":
+			req := &protoobject.SearchV2Request{Body: &protoobject.SearchV2Request_Body{ContainerId: c.cnr.ProtoMessage()}, MetaHeader: mh}
+			if reqSigner != nil {
+				req.VerifyHeader, err = neofscrypto.SignRequestWithBuffer(reqSigner.signer(r.Intn(3)), req, nil)
+				must(err)
+			}
+			info, err = w.svc.SearchV2RequestToInfo(ctx, req, c.cnr, tokens)
+			msg = req
+		case "put":
+			ver := version.Current()
+			hdr := &protoobject.Header{
+				Version:       ver.ProtoMessage(),
+				ContainerId:   c.cnr.ProtoMessage(),
+				OwnerId:       c.objOwner.ProtoMessage(),
+				PayloadLength: 5,
+				CreationEpoch: 7,
+				Attributes:    []*protoobject.Header_Attribute{{Key: "Color", Value: "red"}, {Key: "Num", Value: "10"}},
+			}
+			if in.Tomb {
+				hdr.ObjectType = protoobject.ObjectType_TOMBSTONE
+			}
+			if in.Split {
+				sid := uuid.New()
+				hdr.Split = &protoobject.Header_Split{SplitId: sid[:]}
+			}
+			init := &protoobject.PutRequest_Body_Init{ObjectId: c.obj.ProtoMessage(), Header: hdr}
+			req := &protoobject.PutRequest{Body: &protoobject.PutRequest_Body{ObjectPart: &protoobject.PutRequest_Body_Init_{Init: init}}, MetaHeader: mh}
+			if reqSigner != nil {
+				req.VerifyHeader, err = neofscrypto.SignRequestWithBuffer(reqSigner.signer(r.Intn(3)), req, nil)
+				must(err)
+			}
+			op := acl.OpObjectPut
+			if in.Tomb {
+				op = acl.OpObjectDelete
+			}
+			var objOwner user.ID
+			info, objOwner, err = w.svc.PutRequestToInfo(ctx, req, init, c.cnr, op, tokens)
+			if err != nil {
+				if errors.Is(err, aclsvc.ErrSkipRequest) {
+					return out("skip", "PutRequestToInfo: skip")
+				}
+				return out("deny", "PutRequestToInfo: "+err.Error())
+			}
+			if !w.chk.CheckBasicACL(info) {
+				return out("deny", "basic ACL")
+			}
+			if !w.chk.StickyBitCheck(info, objOwner) {
+				return out("deny", "sticky bit")
+			}
+			msg = req
+		default:
+			panic("op " + in.Op)
+		}
+		if in.Op != "put" {
+			if err != nil {
+				return out("deny", "RequestToInfo: "+err.Error())
+			}
+			if !w.chk.CheckBasicACL(info) {
+				return out("deny", "basic ACL")
+			}
+		}
+		eobj := c.obj
+		if in.Op == "search" {
+			eobj = oid.ID{}
+		}
+		err = w.chk.CheckEACL(ctx, msg, c.cnr, eobj, info)
+		if err != nil && !errors.Is(err, aclsvc.ErrNotMatched) {
+			return out("deny", "eACL: "+err.Error())
+		}
+		if err != nil {
+			return out("allow", "eACL not matched -> basic ACL")
+		}
+		return out("allow", "served")
 	}
 
-	var info aclsvc.RequestInfo
-	var err error
-	var msg any
-	switch in.Op {
-	case "get":
-		req := &protoobject.GetRequest{Body: &protoobject.GetRequest_Body{Address: addr}, MetaHeader: mh}
-		if reqSigner != nil {
-			req.VerifyHeader, err = neofscrypto.SignRequestWithBuffer(reqSigner.signer(r.Intn(3)), req, nil)
-			must(err)
+	o1, d1 := exec()
+	steps := []c28Step{{in: in, out: o1, desc: d1}}
+	if hist {
+		if !in.Bearer.Present || !in.Bearer.Valid {
+			panic("history class needs a valid bearer token")
 		}
-		info, err = w.svc.GetRequestToInfo(ctx, req, c.cnr, tokens)
-		msg = req
-	case "head":
-		req := &protoobject.HeadRequest{Body: &protoobject.HeadRequest_Body{Address: addr}, MetaHeader: mh}
-		if reqSigner != nil {
-			req.VerifyHeader, err = neofscrypto.SignRequestWithBuffer(reqSigner.signer(r.Intn(3)), req, nil)
-			must(err)
+		n := 2 + r.Intn(2) // bearer exp = epoch+1: after n >= 2 new-epoch events it has expired
+		for range n {
+			e.epoch++
+			w.reset() // the node's new-epoch handlers: real ResetTokenCheckCache + sessions cache reset
 		}
-		info, err = w.svc.HeadRequestToInfo(ctx, req, c.cnr, tokens)
-		msg = req
-	case "delete":
-		req := &protoobject.DeleteRequest{Body: &protoobject.DeleteRequest_Body{Address: addr}, MetaHeader: mh}
-		if reqSigner != nil {
-			req.VerifyHeader, err = neofscrypto.SignRequestWithBuffer(reqSigner.signer(r.Intn(3)), req, nil)
-			must(err)
-		}
-		info, err = w.svc.DeleteRequestToInfo(ctx, req, c.cnr, tokens)
-		msg = req
-	case "range", "hash":
-		req := &protoobject.GetRangeRequest{Body: &protoobject.GetRangeRequest_Body{Address: addr, Range: &protoobject.Range{Length: 1}}, MetaHeader: mh}
-		if reqSigner != nil {
-			req.VerifyHeader, err = neofscrypto.SignRequestWithBuffer(reqSigner.signer(r.Intn(3)), req, nil)
-			must(err)
-		}
-		info, err = w.svc.RangeRequestToInfo(ctx, req, c.cnr, tokens)
-		if in.Op == "hash" && err == nil {
-			// GetRangeHash is no longer served by the object server; the checkers still know the
-			// operation, so it is driven directly: request info of a range request, operation replaced.
-			info.Operation = acl.OpObjectHash
-		}
-		msg = req
-	case "search":
-		req := &protoobject.SearchV2Request{Body: &protoobject.SearchV2Request_Body{ContainerId: c.cnr.ProtoMessage()}, MetaHeader: mh}
-		if reqSigner != nil {
-			req.VerifyHeader, err = neofscrypto.SignRequestWithBuffer(reqSigner.signer(r.Intn(3)), req, nil)
-			must(err)
-		}
-		info, err = w.svc.SearchV2RequestToInfo(ctx, req, c.cnr, tokens)
-		msg = req
-	case "put":
-		ver := version.Current()
-		hdr := &protoobject.Header{
-			Version:       ver.ProtoMessage(),
-			ContainerId:   c.cnr.ProtoMessage(),
-			OwnerId:       c.objOwner.ProtoMessage(),
-			PayloadLength: 5,
-			CreationEpoch: 7,
-			Attributes:    []*protoobject.Header_Attribute{{Key: "Color", Value: "red"}, {Key: "Num", Value: "10"}},
-		}
-		if in.Tomb {
-			hdr.ObjectType = protoobject.ObjectType_TOMBSTONE
-		}
-		if in.Split {
-			sid := uuid.New()
-			hdr.Split = &protoobject.Header_Split{SplitId: sid[:]}
-		}
-		init := &protoobject.PutRequest_Body_Init{ObjectId: c.obj.ProtoMessage(), Header: hdr}
-		req := &protoobject.PutRequest{Body: &protoobject.PutRequest_Body{ObjectPart: &protoobject.PutRequest_Body_Init_{Init: init}}, MetaHeader: mh}
-		if reqSigner != nil {
-			req.VerifyHeader, err = neofscrypto.SignRequestWithBuffer(reqSigner.signer(r.Intn(3)), req, nil)
-			must(err)
-		}
-		op := acl.OpObjectPut
-		if in.Tomb {
-			op = acl.OpObjectDelete
-		}
-		var objOwner user.ID
-		info, objOwner, err = w.svc.PutRequestToInfo(ctx, req, init, c.cnr, op, tokens)
-		if err != nil {
-			if errors.Is(err, aclsvc.ErrSkipRequest) {
-				return out("skip", "PutRequestToInfo: skip")
-			}
-			return out("deny", "PutRequestToInfo: "+err.Error())
-		}
-		if !w.chk.CheckBasicACL(info) {
-			return out("deny", "basic ACL")
-		}
-		if !w.chk.StickyBitCheck(info, objOwner) {
-			return out("deny", "sticky bit")
-		}
-		msg = req
-	default:
-		panic("op " + in.Op)
+		in2 := in
+		in2.Bearer.Valid = false
+		o2, d2 := exec()
+		d2["history"] = fmt.Sprintf("same request and bearer token bytes again after %d new-epoch events (epoch now past exp); first verdict %s", n, o1.V)
+		steps = append(steps, c28Step{in: in2, out: o2, desc: d2})
 	}
-	if in.Op != "put" {
-		if err != nil {
-			return out("deny", "RequestToInfo: "+err.Error())
-		}
-		if !w.chk.CheckBasicACL(info) {
-			return out("deny", "basic ACL")
-		}
-	}
-	eobj := c.obj
-	if in.Op == "search" {
-		eobj = oid.ID{}
-	}
-	err = w.chk.CheckEACL(ctx, msg, c.cnr, eobj, info)
-	if err != nil && !errors.Is(err, aclsvc.ErrNotMatched) {
-		return out("deny", "eACL: "+err.Error())
-	}
-	if err != nil {
-		return out("allow", "eACL not matched -> basic ACL")
-	}
-	return out("allow", "served")
+	return steps
 }
 
 // ---------------------------------------------------------------- generator of abstract inputs
@@ -860,13 +905,25 @@ func genC28(outPath string) {
 			variants = append(variants, variant{op: "put", tomb: tomb, ttl1: ttl1, srvIn: true})
 		}
 	}
-	idx := 0
+	idx, nValid := 0, 0
 	emit := func(in c28In, stored bool) {
 		// the realisation of an abstract input draws from its own generator, so that a single
 		// record can be re-realised by `c28replay`
-		o, d := w.run(kit.Rand(int64(2800000+idx)), in, stored)
-		out.Emit(c28Rec{In: in, Out: o, Desc: d, Idx: idx, Stored: stored})
-		idx++
+		// Every third case carrying a valid bearer token becomes a two-step history (token expires by
+		// new-epoch events between the steps).
+		hist := in.Bearer.Present && in.Bearer.Valid && nValid%3 == 0
+		if in.Bearer.Present && in.Bearer.Valid {
+			nValid++
+		}
+		ridx := idx
+		for k, st := range w.runSteps(kit.Rand(int64(2800000+ridx)), in, stored, hist) {
+			h := 0
+			if hist {
+				h = k + 1
+			}
+			out.Emit(c28Rec{In: st.in, Out: st.out, Desc: st.desc, Idx: idx, Stored: stored, Hist: h, Ridx: ridx})
+			idx++
+		}
 	}
 	for _, v := range variants {
 		for flags := range 8 {
@@ -954,7 +1011,15 @@ func replayC28(inPath, outPath string) {
 	out := kit.NewW(outPath)
 	defer out.Close()
 	for _, rc := range recs {
-		o, d := w.run(kit.Rand(int64(2800000+rc.Idx)), rc.In, rc.Stored)
-		out.Emit(c28Rec{In: rc.In, Out: o, Desc: d, Idx: rc.Idx, Stored: rc.Stored})
+		in := rc.In
+		if rc.Hist == 2 {
+			in.Bearer.Valid = true // the history starts with the token still valid
+		}
+		steps := w.runSteps(kit.Rand(int64(2800000+rc.Ridx)), in, rc.Stored, rc.Hist != 0)
+		st := steps[0]
+		if rc.Hist == 2 {
+			st = steps[1]
+		}
+		out.Emit(c28Rec{In: st.in, Out: st.out, Desc: st.desc, Idx: rc.Idx, Stored: rc.Stored, Hist: rc.Hist, Ridx: rc.Ridx})
 	}
 }
